@@ -862,13 +862,37 @@ func genC12() {
 		}
 		g.def("parse_arch_table", "list (string * string)", c12Pairs(tab), "switch of ParseArchitecture at "+g.pos(s.node)+"; any other string is returned unchanged")
 	}
-	wantInit := "a := ParseArchitecture(a.String())"
-	// ToAPK
-	if s := firstSwitch(findFunc(relT, "Architecture", "ToAPK"), "ToAPK"); s != nil {
-		var tab [][2]string
-		if s.tagText != "a" || s.initTxt != wantInit {
-			fail("%s: ToAPK: switch header changed (init %q tag %q)", relT, s.initTxt, s.tagText)
+	// switch header by shape: `switch <id> := ParseArchitecture(<receiver>.String()); <id> {`; returns <id>
+	// (the local may shadow the receiver or have any other name)
+	canonLocal := func(fd *ast.FuncDecl, s *sw, what string) string {
+		bad := func() string {
+			fail("%s: %s: switch header changed (init %q tag %q)", relT, what, s.initTxt, s.tagText)
+			return s.tagText
 		}
+		if fd == nil || fd.Recv == nil || len(fd.Recv.List) != 1 || len(fd.Recv.List[0].Names) != 1 {
+			return bad()
+		}
+		recv := fd.Recv.List[0].Names[0].Name
+		ss := s.node.(*ast.SwitchStmt)
+		as, ok := ss.Init.(*ast.AssignStmt)
+		if !ok || as.Tok != token.DEFINE || len(as.Lhs) != 1 || len(as.Rhs) != 1 {
+			return bad()
+		}
+		id, ok := as.Lhs[0].(*ast.Ident)
+		tag, ok2 := ss.Tag.(*ast.Ident)
+		if !ok || !ok2 || tag.Name != id.Name {
+			return bad()
+		}
+		if strings.Join(strings.Fields(exprText(as.Rhs[0])), "") != "ParseArchitecture("+recv+".String())" {
+			return bad()
+		}
+		return id.Name
+	}
+	// ToAPK
+	fdA := findFunc(relT, "Architecture", "ToAPK")
+	if s := firstSwitch(fdA, "ToAPK"); s != nil {
+		var tab [][2]string
+		local := canonLocal(fdA, s, "ToAPK")
 		for i, ls := range s.cases {
 			r := retOf(s.bodies[i])
 			v, ok := "", false
@@ -883,66 +907,162 @@ func genC12() {
 				tab = append(tab, [2]string{l, v})
 			}
 		}
-		if r := retOf(s.deflt); r == nil || exprText(r) != "string(a)" {
+		if r := retOf(s.deflt); r == nil || exprText(r) != "string("+local+")" {
 			fail("%s: ToAPK: default is not `return string(a)`", relT)
 		}
 		g.def("to_apk_table", "list (string * string)", c12Pairs(tab), "switch of ToAPK at "+g.pos(s.node)+" (applied to ParseArchitecture(a)); default: the string itself")
 	}
-	// ToOCIPlatform
+	// ToOCIPlatform, read by shape: a branch either assigns fields of ONE platform variable (defined from a
+	// v1.Platform literal before the switch and returned after it; fields not mentioned keep the literal's
+	// values) or returns a v1.Platform literal directly (fields not mentioned are empty)
 	fdO := findFunc(relT, "Architecture", "ToOCIPlatform")
 	if s := firstSwitch(fdO, "ToOCIPlatform"); s != nil {
-		if s.tagText != "a" || s.initTxt != wantInit {
-			fail("%s: ToOCIPlatform: switch header changed (init %q tag %q)", relT, s.initTxt, s.tagText)
+		local := canonLocal(fdO, s, "ToOCIPlatform")
+		type plat struct {
+			os, arch, variant string
+			archIsSelf        bool
 		}
-		fields := func(body []ast.Stmt, what string) (arch, variant string, archIsSelf bool) {
-			for _, st := range body {
-				as, ok := st.(*ast.AssignStmt)
-				if !ok || len(as.Lhs) != 1 || len(as.Rhs) != 1 {
-					fail("%s: ToOCIPlatform: %s: unexpected statement %q", relT, what, exprText(st))
+		platLit := func(e ast.Expr) (*ast.CompositeLit, bool) { // v1.Platform{...} or &v1.Platform{...}
+			if ue, ok := e.(*ast.UnaryExpr); ok && ue.Op == token.AND {
+				e = ue.X
+			}
+			cl, ok := e.(*ast.CompositeLit)
+			return cl, ok && exprText(cl.Type) == "v1.Platform"
+		}
+		setField := func(p *plat, field string, val ast.Expr, what string) {
+			v, isLit := strLit(val)
+			switch {
+			case field == "OS" && isLit:
+				p.os = v
+			case field == "Architecture" && isLit:
+				p.arch, p.archIsSelf = v, false
+			case field == "Architecture" && exprText(val) == "string("+local+")":
+				p.arch, p.archIsSelf = "", true
+			case field == "Variant" && isLit:
+				p.variant = v
+			default:
+				fail("%s: ToOCIPlatform: %s: unexpected value for %s: %q", relT, what, field, exprText(val))
+			}
+		}
+		fromLit := func(cl *ast.CompositeLit, what string) plat {
+			var p plat
+			for _, el := range cl.Elts {
+				kv, ok := el.(*ast.KeyValueExpr)
+				if !ok {
+					fail("%s: ToOCIPlatform: %s: positional element in the v1.Platform literal", relT, what)
 					continue
 				}
-				l := exprText(as.Lhs[0])
-				v, isLit := strLit(as.Rhs[0])
-				switch {
-				case l == "plat.Architecture" && isLit:
-					arch = v
-				case l == "plat.Architecture" && exprText(as.Rhs[0]) == "string(a)":
-					archIsSelf = true
-				case l == "plat.Variant" && isLit:
-					variant = v
-				default:
-					fail("%s: ToOCIPlatform: %s: unexpected assignment %q", relT, what, exprText(st))
+				setField(&p, exprText(kv.Key), kv.Value, what)
+			}
+			return p
+		}
+		// the platform variable, if there is one: `<pv> := v1.Platform{...}` before the switch, `return &<pv>` after it
+		pv, haveVar := "", false
+		var dflt plat
+		var trailer []ast.Stmt // statements between the switch and the end of the function
+		seenSwitch := false
+		for _, st := range fdO.Body.List {
+			if st == s.node {
+				seenSwitch = true
+				continue
+			}
+			if seenSwitch {
+				trailer = append(trailer, st)
+				continue
+			}
+			as, ok := st.(*ast.AssignStmt)
+			if ok && as.Tok == token.DEFINE && len(as.Lhs) == 1 && len(as.Rhs) == 1 {
+				if cl, ok := platLit(as.Rhs[0]); ok {
+					pv, haveVar = exprText(as.Lhs[0]), true
+					dflt = fromLit(cl, "the literal before the switch")
+					continue
 				}
 			}
-			return
+			fail("%s: ToOCIPlatform: unexpected statement before the switch: %q", relT, exprText(st))
+		}
+		returnsVar := func(st ast.Stmt) bool {
+			rs, ok := st.(*ast.ReturnStmt)
+			if !ok || len(rs.Results) != 1 || !haveVar {
+				return false
+			}
+			t := exprText(rs.Results[0])
+			return t == "&"+pv || t == pv
+		}
+		// evaluate a branch body; ok=false when it falls out of the fragment
+		branch := func(body []ast.Stmt, what string) (plat, bool) {
+			p := dflt
+			for i, st := range body {
+				switch x := st.(type) {
+				case *ast.AssignStmt:
+					if haveVar && len(x.Lhs) == 1 && len(x.Rhs) == 1 && x.Tok == token.ASSIGN {
+						if se, ok := x.Lhs[0].(*ast.SelectorExpr); ok && exprText(se.X) == pv {
+							setField(&p, se.Sel.Name, x.Rhs[0], what)
+							continue
+						}
+					}
+				case *ast.ReturnStmt:
+					if i == len(body)-1 && len(x.Results) == 1 {
+						if cl, ok := platLit(x.Results[0]); ok {
+							if i != 0 {
+								fail("%s: ToOCIPlatform: %s: assignments followed by a literal return", relT, what)
+							}
+							return fromLit(cl, what), true
+						}
+						if returnsVar(st) {
+							return p, true
+						}
+					}
+				}
+				fail("%s: ToOCIPlatform: %s: unexpected statement %q", relT, what, exprText(st))
+				return p, false
+			}
+			// falls through to the statements after the switch
+			for i, st := range trailer {
+				if i == len(trailer)-1 && returnsVar(st) {
+					return p, true
+				}
+				if rs, ok := st.(*ast.ReturnStmt); ok && i == len(trailer)-1 && len(rs.Results) == 1 && len(body) == 0 {
+					if cl, ok := platLit(rs.Results[0]); ok {
+						return fromLit(cl, what), true
+					}
+				}
+				fail("%s: ToOCIPlatform: %s: unexpected statement after the switch %q", relT, what, exprText(st))
+				return p, false
+			}
+			fail("%s: ToOCIPlatform: %s: the branch does not return a platform", relT, what)
+			return p, false
 		}
 		var items []string
+		osLit, osSet := "", false
+		noteOS := func(p plat, what string) {
+			if !osSet {
+				osLit, osSet = p.os, true
+			} else if p.os != osLit {
+				fail("%s: ToOCIPlatform: %s: OS %q differs from the other branches' %q", relT, what, p.os, osLit)
+			}
+		}
 		for i, ls := range s.cases {
-			a, v, self := fields(s.bodies[i], fmt.Sprint(ls))
-			if self {
+			p, ok := branch(s.bodies[i], fmt.Sprint(ls))
+			if !ok {
+				continue
+			}
+			noteOS(p, fmt.Sprint(ls))
+			if p.archIsSelf {
 				fail("%s: ToOCIPlatform: case %v copies the architecture string (only the default may)", relT, ls)
 			}
 			for _, l := range ls {
-				items = append(items, "("+coqStr(l)+", ("+coqStr(a)+", "+coqStr(v)+"))")
+				items = append(items, "("+coqStr(l)+", ("+coqStr(p.arch)+", "+coqStr(p.variant)+"))")
 			}
 		}
-		_, dv, self := fields(s.deflt, "default")
-		if !self || dv != "" {
-			fail("%s: ToOCIPlatform: default is not `plat.Architecture = string(a)`", relT)
+		// the default clause; without one, the default is what follows the switch
+		if p, ok := branch(s.deflt, "default"); ok {
+			noteOS(p, "default")
+			if !p.archIsSelf || p.variant != "" {
+				fail("%s: ToOCIPlatform: default is not `plat.Architecture = string(a)`", relT)
+			}
 		}
 		g.def("oci_platform_table", "list (string * (string * string))", "["+strings.Join(items, "; ")+"]",
 			"switch of ToOCIPlatform at "+g.pos(s.node)+" (applied to ParseArchitecture(a)): architecture -> (Architecture, Variant); default: (the string itself, \"\")")
-		osLit := ""
-		ast.Inspect(fdO, func(n ast.Node) bool {
-			if cl, ok := n.(*ast.CompositeLit); ok && exprText(cl.Type) == "v1.Platform" {
-				for _, el := range cl.Elts {
-					if kv, ok := el.(*ast.KeyValueExpr); ok && exprText(kv.Key) == "OS" {
-						osLit, _ = strLit(kv.Value)
-					}
-				}
-			}
-			return true
-		})
 		if osLit == "" {
 			fail("%s: ToOCIPlatform: v1.Platform{OS: <literal>} not found", relT)
 		}
